@@ -864,21 +864,39 @@ def udp_big_run(ctx, regs, label):
             ctx.tie_broken("harness:udp-server-did-not-stop", "")
 
 
+TRICKLE_HEAD = b"\x15\xff\xff\xff\xff"       # brine: TAG_TUP_L4, count 2**32-1
+
+
+def _trickle(sock, stop, period):
+    """feed one more byte (a small integer item) every `period` seconds until told to stop or the server drops the connection"""
+    while not stop.wait(period):
+        try:
+            sock.send(b"\x01")
+        except OSError:
+            return
+
+
 def tcp_run(ctx, model, script):
-    """real TCP loopback. script: list of 'silent' | 'partial' | 'register' | 'query' ; clients connect in that order and
-    silent/partial ones stay connected.  Every 'query' must be answered within the bound."""
+    """real TCP loopback. script: list of 'silent' | 'partial' | 'trickle' | 'register' | 'query' ; clients connect in that order and
+    silent/partial/trickle ones stay connected (a trickling client keeps sending a byte at a time, faster than the server's read timeout).  Every 'query' must be answered within the bound."""
     srv = TCPSrv(host="127.0.0.1", port=0, pruning_timeout=240, logger=_quiet)
     th = _start(srv)
     port = srv.port
     held, answers = [], []
+    stop_trickle = threading.Event()
     case = {"kind": "tcp", "script": script}
     bound = LIMIT        # a passing run returns as soon as the answer arrives; a loaded machine must not look like starvation
     try:
         for step in script:
-            if step in ("silent", "partial"):
+            if step in ("silent", "partial", "trickle"):
                 s = socket.create_connection(("127.0.0.1", port), timeout=LIMIT)
                 if step == "partial":
                     s.send(dg("RPYC", "QUERY", ("foo",))[:3])
+                if step == "trickle":
+                    # the head of a value that never completes (a tuple announcing 2**32-1 items) in one segment, then one more byte
+                    # every TIMEOUT/10 for as long as the run lasts: no single read of the server ever runs into its timeout
+                    s.send(TRICKLE_HEAD)
+                    threading.Thread(target=_trickle, args=(s, stop_trickle, TCPSrv.TIMEOUT / 10.0), daemon=True).start()
                 held.append(s)
                 _time.sleep(0.05)
                 answers.append(None)
@@ -890,8 +908,8 @@ def tcp_run(ctx, model, script):
         ctx.count("socket:tcp-run")
         starved = [i for i, (st, a) in enumerate(zip(script, answers)) if st in ("register", "query") and not a]
         if starved:
-            blocker = [st for st in script[:starved[0]] if st in ("silent", "partial")]
-            sig = "tcp-silent-client-starves-others" if "silent" in blocker else "tcp-client-unanswered"
+            blocker = [st for st in script[:starved[0]] if st in ("silent", "partial", "trickle")]
+            sig = "tcp-silent-client-starves-others" if "silent" in blocker else "tcp-trickling-client-starves-others" if "trickle" in blocker else "tcp-client-unanswered"
             ctx.violation(sig, case, observed="client %d (%s) got no answer within %.1fs" % (starved[0], script[starved[0]], bound),
                           expected="every well-formed request is answered although another client connected and sent nothing",
                           what="a TCP client that connects and stays silent blocks TCPRegistryServer._recv: nobody else is answered")
@@ -906,7 +924,7 @@ def tcp_run(ctx, model, script):
             facts = gen_facts()
             cl = []
             for i, st in enumerate(script):
-                d = {"silent": 0, "partial": dg("RPYC", "QUERY", ("foo",))[:3], "register": dg("RPYC", "REGISTER", (("foo",), 1234)),
+                d = {"silent": 0, "partial": dg("RPYC", "QUERY", ("foo",))[:3], "trickle": TRICKLE_HEAD, "register": dg("RPYC", "REGISTER", (("foo",), 1234)),
                      "query": dg("RPYC", "QUERY", ("foo",))}[st]
                 cl.append([1000 + i, "127.0.0.1", d])
             mo = model.batch([["tcp", facts, [240, [sp_flag(), MAXD], 1000], cl]])[0]
@@ -918,6 +936,7 @@ def tcp_run(ctx, model, script):
                     if mans != (a or b""):
                         ctx.tie_broken("correspondence:tcp", "script %r client %d: model %r impl %r" % (script, i, m, a))
     finally:
+        stop_trickle.set()
         for s in held:
             try:
                 s.close()
@@ -1160,11 +1179,12 @@ def run(ctx):
         check_histories(ctx, model, [gen_history(r, 200) for _ in range(2500)], "long")
     # real sockets
     udp_sets = [[dg("RPYC", 5, ())], [b"\xff\x00", dg("nope", "QUERY", ("foo",)), dg("RPYC", "QUERY", 7), dg("RPYC", "nosuch", ())]]
-    tcp_scripts = [["register", "silent", "query"], ["register", "partial", "query"]]
+    tcp_scripts = [["register", "silent", "query"], ["register", "partial", "query"], ["register", "trickle", "query"]]
     if not ctx.quick:
         udp_sets += [[gen_malformed(r, dg("RPYC", "QUERY", ("foo",))) for _ in range(20)] for _ in range(10)]
         udp_sets += [[dg("RPYC", s, ())] for s in (None, 1.5, ("QUERY",), frozenset(), slice(1, 2, 3))]
-        tcp_scripts += [["silent", "register", "query"], ["partial", "silent", "register", "partial", "query", "query"], ["query", "register", "query"]]
+        tcp_scripts += [["silent", "register", "query"], ["partial", "silent", "register", "partial", "query", "query"], ["query", "register", "query"],
+                        ["trickle", "register", "trickle", "query"]]
     for ds in udp_sets:
         udp_run(ctx, ds)
     for sc in tcp_scripts:
